@@ -15,6 +15,20 @@ __CPROVER_requires(result->mx_records.n <= RVEC_MAX && __CPROVER_is_fresh(result
 __CPROVER_requires(result->txt_records.n <= RVEC_MAX && __CPROVER_is_fresh(result->txt_records.p, result->txt_records.n * sizeof(DnsRec))) \
 __CPROVER_requires(result->ptr_records.n <= RVEC_MAX && __CPROVER_is_fresh(result->ptr_records.p, result->ptr_records.n * sizeof(DnsRec))) \
 __CPROVER_requires(result->soa_records.n <= RVEC_MAX && __CPROVER_is_fresh(result->soa_records.p, result->soa_records.n * sizeof(DnsRec)))
+#define WITNESS_BOUND \
+__CPROVER_requires(G_wv == ((GSEC == 0 && GI < result->answers.n) || (GSEC == 1 && GI < result->authority.n) || (GSEC == 2 && GI < result->additional.n) || (GSEC == 3 && GI < result->a_records.n) || (GSEC == 4 && GI < result->aaaa_records.n) || (GSEC == 5 && GI < result->srv_records.n) || (GSEC == 6 && GI < result->naptr_records.n) || (GSEC == 7 && GI < result->cname_records.n) || (GSEC == 8 && GI < result->mx_records.n) || (GSEC == 9 && GI < result->txt_records.n) || (GSEC == 10 && GI < result->ptr_records.n) || (GSEC == 11 && GI < result->soa_records.n))) \
+__CPROVER_requires((GSEC == 0 && GI < result->answers.n) ==> G_wttl == result->answers.p[GI].ttl) \
+__CPROVER_requires((GSEC == 1 && GI < result->authority.n) ==> G_wttl == result->authority.p[GI].ttl) \
+__CPROVER_requires((GSEC == 2 && GI < result->additional.n) ==> G_wttl == result->additional.p[GI].ttl) \
+__CPROVER_requires((GSEC == 3 && GI < result->a_records.n) ==> G_wttl == result->a_records.p[GI].ttl) \
+__CPROVER_requires((GSEC == 4 && GI < result->aaaa_records.n) ==> G_wttl == result->aaaa_records.p[GI].ttl) \
+__CPROVER_requires((GSEC == 5 && GI < result->srv_records.n) ==> G_wttl == result->srv_records.p[GI].ttl) \
+__CPROVER_requires((GSEC == 6 && GI < result->naptr_records.n) ==> G_wttl == result->naptr_records.p[GI].ttl) \
+__CPROVER_requires((GSEC == 7 && GI < result->cname_records.n) ==> G_wttl == result->cname_records.p[GI].ttl) \
+__CPROVER_requires((GSEC == 8 && GI < result->mx_records.n) ==> G_wttl == result->mx_records.p[GI].ttl) \
+__CPROVER_requires((GSEC == 9 && GI < result->txt_records.n) ==> G_wttl == result->txt_records.p[GI].ttl) \
+__CPROVER_requires((GSEC == 10 && GI < result->ptr_records.n) ==> G_wttl == result->ptr_records.p[GI].ttl) \
+__CPROVER_requires((GSEC == 11 && GI < result->soa_records.n) ==> G_wttl == result->soa_records.p[GI].ttl)
 /* the configured default TTL is a second count that fits the 32-bit TTL type it is cast to */
 #define SELF_OK (self->defaultTtlSeconds_ >= 0 && self->defaultTtlSeconds_ <= (int64_t)0xFFFFFFFF)
 
@@ -24,19 +38,9 @@ __CPROVER_requires(result->soa_records.n <= RVEC_MAX && __CPROVER_is_fresh(resul
 uint32_t calculateResultTtl_contract(const DnsCache *self, const DnsResult *result)
 __CPROVER_requires(IORA_TRUE && __CPROVER_is_fresh(self, sizeof(*self)) && SELF_OK)
 RESULT_FRESH
+WITNESS_BOUND
 __CPROVER_assigns()
-/* T1.0 */ __CPROVER_ensures((GSEC == 0 && GI < result->answers.n) ==> __CPROVER_return_value <= result->answers.p[GI].ttl)
-/* T1.1 */ __CPROVER_ensures((GSEC == 1 && GI < result->authority.n) ==> __CPROVER_return_value <= result->authority.p[GI].ttl)
-/* T1.2 */ __CPROVER_ensures((GSEC == 2 && GI < result->additional.n) ==> __CPROVER_return_value <= result->additional.p[GI].ttl)
-/* T1.3 */ __CPROVER_ensures((GSEC == 3 && GI < result->a_records.n) ==> __CPROVER_return_value <= result->a_records.p[GI].ttl)
-/* T1.4 */ __CPROVER_ensures((GSEC == 4 && GI < result->aaaa_records.n) ==> __CPROVER_return_value <= result->aaaa_records.p[GI].ttl)
-/* T1.5 */ __CPROVER_ensures((GSEC == 5 && GI < result->srv_records.n) ==> __CPROVER_return_value <= result->srv_records.p[GI].ttl)
-/* T1.6 */ __CPROVER_ensures((GSEC == 6 && GI < result->naptr_records.n) ==> __CPROVER_return_value <= result->naptr_records.p[GI].ttl)
-/* T1.7 */ __CPROVER_ensures((GSEC == 7 && GI < result->cname_records.n) ==> __CPROVER_return_value <= result->cname_records.p[GI].ttl)
-/* T1.8 */ __CPROVER_ensures((GSEC == 8 && GI < result->mx_records.n) ==> __CPROVER_return_value <= result->mx_records.p[GI].ttl)
-/* T1.9 */ __CPROVER_ensures((GSEC == 9 && GI < result->txt_records.n) ==> __CPROVER_return_value <= result->txt_records.p[GI].ttl)
-/* T1.10 */ __CPROVER_ensures((GSEC == 10 && GI < result->ptr_records.n) ==> __CPROVER_return_value <= result->ptr_records.p[GI].ttl)
-/* T1.11 */ __CPROVER_ensures((GSEC == 11 && GI < result->soa_records.n) ==> __CPROVER_return_value <= result->soa_records.p[GI].ttl)
+/* T1 */ __CPROVER_ensures(G_wv ==> __CPROVER_return_value <= G_wttl)
 /* T2 no record at all: the configured default */
 __CPROVER_ensures((result->answers.n == 0 && result->authority.n == 0 && result->additional.n == 0 && result->a_records.n == 0 && result->aaaa_records.n == 0 && result->srv_records.n == 0 && result->naptr_records.n == 0 && result->cname_records.n == 0 && result->mx_records.n == 0 && result->txt_records.n == 0 && result->ptr_records.n == 0 && result->soa_records.n == 0) ==> __CPROVER_return_value == (uint32_t)self->defaultTtlSeconds_)
 /* T3 a single answer record and nothing else: exactly its TTL (unless that is the 2^32-1 sentinel) */
@@ -130,25 +134,18 @@ void h_set_get(void)
 /* ------------------------------------------------------------------------------------------------------------------
  * DnsCache::put, the TTL hand-over (block target: `ttl = calculateResultTtl(result); ... cache_->set(key, cachedResult, seconds(ttl));`)
  * calculateResultTtl replaced by its contract above, ExpiringCache::set inlined (extracted text).
- * P1: the entry written for the key expires no later than now + TTL of the ARBITRARY witness record of the cached result.
+ * P1: the entry the key has after put expires no later than now + TTL of the ARBITRARY witness record of the cached result.
  *     FAILS on the unchanged tree (finding D3): a minimum TTL of 0 is handed to set(), where 0 means "default TTL". */
 void put_core_contract(DnsCache *self, uint64_t key, const DnsResult *result)
 __CPROVER_requires(IORA_TRUE && __CPROVER_is_fresh(self, sizeof(*self)) && SELF_OK && __CPROVER_is_fresh(self->cache_, sizeof(*self->cache_)))
 __CPROVER_requires(TIME_OK(G_now) && TTL_OK(self->cache_->_ttl))
 RESULT_FRESH
+WITNESS_BOUND
 __CPROVER_assigns(self->cache_->_cache)
-/* P1.0 */ __CPROVER_ensures((key == GKEY && GSEC == 0 && GI < result->answers.n) ==> (self->cache_->_cache.has && self->cache_->_cache.e.expiration <= G_now + (int64_t)result->answers.p[GI].ttl))
-/* P1.1 */ __CPROVER_ensures((key == GKEY && GSEC == 1 && GI < result->authority.n) ==> (self->cache_->_cache.has && self->cache_->_cache.e.expiration <= G_now + (int64_t)result->authority.p[GI].ttl))
-/* P1.2 */ __CPROVER_ensures((key == GKEY && GSEC == 2 && GI < result->additional.n) ==> (self->cache_->_cache.has && self->cache_->_cache.e.expiration <= G_now + (int64_t)result->additional.p[GI].ttl))
-/* P1.3 */ __CPROVER_ensures((key == GKEY && GSEC == 3 && GI < result->a_records.n) ==> (self->cache_->_cache.has && self->cache_->_cache.e.expiration <= G_now + (int64_t)result->a_records.p[GI].ttl))
-/* P1.4 */ __CPROVER_ensures((key == GKEY && GSEC == 4 && GI < result->aaaa_records.n) ==> (self->cache_->_cache.has && self->cache_->_cache.e.expiration <= G_now + (int64_t)result->aaaa_records.p[GI].ttl))
-/* P1.5 */ __CPROVER_ensures((key == GKEY && GSEC == 5 && GI < result->srv_records.n) ==> (self->cache_->_cache.has && self->cache_->_cache.e.expiration <= G_now + (int64_t)result->srv_records.p[GI].ttl))
-/* P1.6 */ __CPROVER_ensures((key == GKEY && GSEC == 6 && GI < result->naptr_records.n) ==> (self->cache_->_cache.has && self->cache_->_cache.e.expiration <= G_now + (int64_t)result->naptr_records.p[GI].ttl))
-/* P1.7 */ __CPROVER_ensures((key == GKEY && GSEC == 7 && GI < result->cname_records.n) ==> (self->cache_->_cache.has && self->cache_->_cache.e.expiration <= G_now + (int64_t)result->cname_records.p[GI].ttl))
-/* P1.8 */ __CPROVER_ensures((key == GKEY && GSEC == 8 && GI < result->mx_records.n) ==> (self->cache_->_cache.has && self->cache_->_cache.e.expiration <= G_now + (int64_t)result->mx_records.p[GI].ttl))
-/* P1.9 */ __CPROVER_ensures((key == GKEY && GSEC == 9 && GI < result->txt_records.n) ==> (self->cache_->_cache.has && self->cache_->_cache.e.expiration <= G_now + (int64_t)result->txt_records.p[GI].ttl))
-/* P1.10 */ __CPROVER_ensures((key == GKEY && GSEC == 10 && GI < result->ptr_records.n) ==> (self->cache_->_cache.has && self->cache_->_cache.e.expiration <= G_now + (int64_t)result->ptr_records.p[GI].ttl))
-/* P1.11 */ __CPROVER_ensures((key == GKEY && GSEC == 11 && GI < result->soa_records.n) ==> (self->cache_->_cache.has && self->cache_->_cache.e.expiration <= G_now + (int64_t)result->soa_records.p[GI].ttl))
+/* P1 */ __CPROVER_ensures((key == GKEY && G_wv && self->cache_->_cache.has) ==> self->cache_->_cache.e.expiration <= G_now + (int64_t)G_wttl)
+/* P3 a single answer record with a TTL > 0 and nothing else: stored, and it expires exactly TTL after now */
+__CPROVER_ensures((key == GKEY && result->answers.n == 1 && result->authority.n == 0 && result->additional.n == 0 && result->a_records.n == 0 && result->aaaa_records.n == 0 && result->srv_records.n == 0 && result->naptr_records.n == 0 && result->cname_records.n == 0 && result->mx_records.n == 0 && result->txt_records.n == 0 && result->ptr_records.n == 0 && result->soa_records.n == 0 && result->answers.p[0].ttl > 0 && result->answers.p[0].ttl != 0xFFFFFFFFu) ==>
+   (self->cache_->_cache.has && self->cache_->_cache.e.expiration == G_now + (int64_t)result->answers.p[0].ttl))
 /* P2 the entry holds this result */
 __CPROVER_ensures((key == GKEY && self->cache_->_cache.has) ==> self->cache_->_cache.e.value == G_result_id)
 ;
@@ -170,7 +167,7 @@ void h_search(void)
   DnsResult res = { {&rec, 1}, {0,0},{0,0},{0,0},{0,0},{0,0},{0,0},{0,0},{0,0},{0,0},{0,0},{0,0} };
   ExpiringCache ec = { {false, {0, 0}}, 300, false };
   DnsCache dc = { 300, &ec };
-  IORA_TRUE = 1; GKEY = 7; G_now = 0; G_result_id = 42; GSEC = 0; GI = 0;
+  IORA_TRUE = 1; GKEY = 7; G_now = 0; G_result_id = 42; GSEC = 0; GI = 0; G_wv = true; G_wttl = IN_TTL;
   DnsCache_put_core(&dc, 7, &res);
   G_now = IN_DT;
   uint64_t out = 0;
